@@ -169,15 +169,6 @@ def run(ctx, res):
                     if len(iw) == 2 and iw[1] == rust_trim(runs[0][2]) + rust_trim(OUTS[0]):
                         res.extra.setdefault("findings_no_longer_reproducing", []).append("greedy_merge")
                         continue
-                elif kind == "badbq" and "backquote_failure_stale" in known:
-                    # repaired form: a backquote command that does not plan yields the empty string, in its own place
-                    def bq_fixed(tg, x):
-                        if tg == "`":
-                            return "" if x == bad else rust_trim(OUTS[0])
-                        return re.sub(r"`([^`]*)`", lambda m_: "" if m_.group(1) == bad else rust_trim(OUTS[0]), x)
-                    if iw == [bq_fixed(tg, x) for tg, x in toks]:
-                        res.extra.setdefault("findings_no_longer_reproducing", []).append("backquote_failure_stale")
-                        continue
                 verdict = "correspondence"
                 if expw is not None and len(iw) == len(mw) == len(toks):
                     verdict = "accepted"
@@ -247,13 +238,9 @@ def run(ctx, res):
                     if tg == "`":
                         return "" if x == bad else rust_trim(OUTS[0])
                     return re.sub(r"`([^`]*)`", lambda m_: "" if m_.group(1) == bad else rust_trim(OUTS[0]), x)
-                if [C.dec(y) for x, y in re.findall(r'\("([^"]*)","([^"]*)"\)', b)] == [bq_fixed2(tg, x) for tg, x in toks]:
-                    pass        # this line already comes out as the repaired form would give it
-                elif "backquote_failure_stale" in known:
-                    hit("backquote_failure_stale")
-                else:
+                if [C.dec(y) for x, y in re.findall(r'\("([^"]*)","([^"]*)"\)', b)] != [bq_fixed2(tg, x) for tg, x in toks]:
                     violate(kind="oracle", layer="L1", input=repr(toks), observed=b, failing_input=True,
-                            note="a backquote substitution that does not plan disturbs its neighbours")
+                            note="a backquote substitution that does not plan must give the empty string, in its own place")
         res.sample({"layer": "L1", "input": repr(cases[1][0]).replace(work, "W"), "model": m1[1].replace(work, "W"),
                     "impl": i1[1].replace(work, "W")})
         # ------------------------------------------------------------ L1g: token LISTS (index buffers of both passes)
